@@ -97,6 +97,12 @@ func cmdCheck(args []string) int {
 	for _, n := range claimedAll[*prop] {
 		claimed[n] = true
 	}
+	excludedAll := map[string]map[string]string{}
+	readJSON(filepath.Join(verifRoot, "contracts", "excluded.json"), &excludedAll)
+	excluded := excludedAll[*prop]
+	if excluded == nil {
+		excluded = map[string]string{}
+	}
 	var known struct {
 		Findings []KnownFinding `json:"findings"`
 	}
@@ -171,7 +177,9 @@ func cmdCheck(args []string) int {
 		if *only != "" && !strings.Contains(o.Name, *only) {
 			continue
 		}
-		if *all || *update || claimed[o.Name] || o.Canary {
+		_, isExcluded := excluded[o.Name]
+		isNew := !claimed[o.Name] && !isExcluded && !o.Canary
+		if *all || *update || claimed[o.Name] || o.Canary || isNew {
 			todo = append(todo, o)
 		}
 	}
@@ -223,10 +231,16 @@ func cmdCheck(args []string) int {
 			continue
 		}
 		if !claimed[o.Name] {
+			if _, isExcluded := excluded[o.Name]; !isExcluded && o.Result == "sat" && unitErr[o.unit.name] == "" && !*update {
+				// an obligation that did not exist when the claim was recorded and has a counterexample
+				failures = append(failures, failure{o.Name, "new obligation (not present when the claim was recorded) has a counterexample", o})
+				continue
+			}
 			attempted = append(attempted, fmt.Sprintf("%s: %s (%s, %.2fs)", o.Name, o.Result, o.Solver, o.Secs))
 			continue
 		}
 	}
+	var gone []string
 	var claimedNames []string
 	for n := range claimed {
 		claimedNames = append(claimedNames, n)
@@ -238,6 +252,22 @@ func cmdCheck(args []string) int {
 		}
 		nClaimed++
 		o := generated[n]
+		if o == nil && (strings.Contains(n, "/nopanic/") || strings.Contains(n, "/call-pre/")) {
+			// the partial operation / call no longer exists in the source: nothing to prove,
+			// as long as its function was still generated without errors
+			uname := n[:strings.Index(n, "/")]
+			okUnit := false
+			for _, u := range units {
+				if u.name == uname && len(u.errs) == 0 {
+					okUnit = true
+				}
+			}
+			if okUnit {
+				nClaimed--
+				gone = append(gone, n)
+				continue
+			}
+		}
 		if o == nil {
 			// which unit?
 			reason := "claimed obligation was not generated from the current source"
@@ -286,6 +316,19 @@ func cmdCheck(args []string) int {
 		claimedAll[*prop] = names
 		data, _ := json.MarshalIndent(claimedAll, "", " ")
 		os.WriteFile(filepath.Join(verifRoot, "contracts", "claimed.json"), append(data, '\n'), 0o644)
+		isClaimed := map[string]bool{}
+		for _, n := range names {
+			isClaimed[n] = true
+		}
+		ex := map[string]string{}
+		for _, o := range todo {
+			if !o.Canary && !isClaimed[o.Name] {
+				ex[o.Name] = fmt.Sprintf("not claimed: %s by %s in %.1fs when the claim was recorded", o.Result, o.Solver, o.Secs)
+			}
+		}
+		excludedAll[*prop] = ex
+		data, _ = json.MarshalIndent(excludedAll, "", " ")
+		os.WriteFile(filepath.Join(verifRoot, "contracts", "excluded.json"), append(data, '\n'), 0o644)
 		fmt.Printf("claimed.json: %d obligations for %s\n", len(names), *prop)
 		return 0
 	}
@@ -406,6 +449,7 @@ func cmdCheck(args []string) int {
 				"slowest":                  slowest,
 				"samples":                  samples,
 				"attempted_not_claimed":    attempted,
+				"claimed_but_no_longer_in_source": gone,
 				"bounded_obligations":      cfg.Bounded,
 				"inlined_callees":          sortedKeys(inlinedFns),
 				"not_decided":              cfg.NotDecided,
